@@ -685,3 +685,51 @@ def _consumers(ctx, rid, shell):
         ctx.floor_failures.append('rule %s could not decide %s (%s)' % (
             rid, missing, '; '.join(x for x in ctx.notes if x.startswith(rid))[:300]))
     return n
+
+
+def rule_neff_guard(ctx, rid='E'):
+    """n_eff: the early `return 0` stands for "no shell has any effective sample yet".  Taken
+    under "SOME shell has none" (`np.any(shell_n_eff == 0)`), the reported effective sample size
+    drops to 0 whenever one shell is still empty - during the whole exploration - although the
+    estimator of the stored samples is positive."""
+    f = ctx.program.func('Sampler.n_eff')
+    n = 0
+    for st in walk_no_nested(f.node):
+        if not (isinstance(st, ast.If) and st.body and isinstance(st.body[0], ast.Return)):
+            continue
+        r = st.body[0].value
+        if not (isinstance(r, ast.Constant) and r.value in (0, 0.0)):
+            continue
+        t = st.test
+        neg = False
+        while isinstance(t, ast.UnaryOp) and isinstance(t.op, ast.Not):
+            neg, t = not neg, t.operand
+        verdict = None
+        if isinstance(t, ast.Call) and t.args and isinstance(t.args[0], ast.Compare) and \
+                len(t.args[0].ops) == 1:
+            q = (dotted(t.func) or '').split('.')[-1]
+            c = t.args[0]
+            zero = isinstance(c.comparators[0], ast.Constant) and c.comparators[0].value == 0
+            if zero and q in ('all', 'any'):
+                op = type(c.ops[0])
+                if op in (ast.Eq, ast.LtE):          # x == 0
+                    verdict = (q == 'all' and not neg)
+                elif op in (ast.Gt, ast.NotEq):      # x > 0
+                    verdict = (q == 'any' and neg)
+        elif isinstance(t, ast.Compare) and len(t.ops) == 1 and isinstance(t.left, ast.Call) and \
+                (dotted(t.left.func) or '') in ('np.sum', 'np.amax', 'np.max', 'np.nanmax') and \
+                isinstance(t.comparators[0], ast.Constant) and t.comparators[0].value == 0 and \
+                isinstance(t.ops[0], (ast.Eq, ast.LtE)) and not neg:
+            verdict = True
+        if verdict is None:
+            ctx.note('E not decided: early-return test `%s` of Sampler.n_eff' % unparse(t)[:50])
+            ctx.floor_failures.append('rule E could not decide the zero guard of Sampler.n_eff')
+            continue
+        n += 1
+        ctx.ob(rid, 'Sampler.n_eff:zero-only-when-every-shell-is-empty', verdict, f.where(st),
+               'n_eff is 0 only when no shell has an effective sample' if verdict else
+               '`%s` returns 0 as soon as ONE shell has no effective sample: during exploration '
+               '(empty shells are normal) the reported n_eff is 0 although the estimator of the '
+               'stored samples is positive' % unparse(st.test)[:50])
+    ctx.require(n >= 1, 'E: the zero guard of Sampler.n_eff was not found')
+    return n
